@@ -747,6 +747,8 @@ impl ServiceDaemon {
         cmd_sender: Sender<Command>,
         signal_addr: SocketAddr,
     ) {
+        #[cfg(feature = "verif-hooks")]
+        let _verif_guard = crate::verif::claim_pending();
         let mut zc = Zeroconf::new(signal_sock, poller, port, cmd_sender, signal_addr);
 
         if let Some(cmd) = zc.run(receiver) {
@@ -1103,6 +1105,10 @@ struct Zeroconf {
 
 /// Join the multicast group for the given interface.
 fn join_multicast_group(my_sock: &PktInfoUdpSocket, intf: &Interface) -> Result<()> {
+    #[cfg(feature = "verif-hooks")]
+    if crate::verif::sim_active() {
+        return Ok(());
+    }
     let intf_ip = &intf.ip();
     match intf_ip {
         IpAddr::V4(ip) => {
@@ -1436,6 +1442,8 @@ impl Zeroconf {
                 Duration::from_millis(millis)
             });
 
+            #[cfg(feature = "verif-hooks")]
+            let timeout = crate::verif::gate(earliest_timer, timeout, receiver.len());
             // Process incoming packets, command events and optional timeout.
             events.clear();
             match self.poller.poll(&mut events, timeout) {
@@ -1444,6 +1452,12 @@ impl Zeroconf {
             }
 
             let now = current_time_millis();
+
+            #[cfg(feature = "verif-hooks")]
+            if crate::verif::sim_active() {
+                while self.handle_read(IPV4_SOCK_EVENT_KEY) {}
+                while self.handle_read(IPV6_SOCK_EVENT_KEY) {}
+            }
 
             // Remove the timers if already passed.
             self.pop_timers_till(now);
@@ -2472,6 +2486,8 @@ impl Zeroconf {
             debug!("handle_read: socket not available for token {}", event_key);
             return false;
         };
+        #[cfg(feature = "verif-hooks")]
+        let sock = crate::verif::RecvShim::new(&sock.pktinfo, event_key == IPV4_SOCK_EVENT_KEY);
         let mut buf = vec![0u8; MAX_MSG_ABSOLUTE];
 
         // Read the next mDNS UDP datagram.
@@ -3031,6 +3047,9 @@ impl Zeroconf {
 
             // Probing again with the new names.
             let create_time = current_time_millis() + fastrand::u64(0..250);
+            #[cfg(feature = "verif-hooks")]
+            let create_time =
+                current_time_millis() + crate::verif::jitter(create_time - current_time_millis());
 
             let waiting_services = probe.waiting_services.clone();
 
@@ -4286,6 +4305,8 @@ fn my_ip_interfaces(with_loopback: bool) -> Vec<Interface> {
 }
 
 fn my_ip_interfaces_inner(with_loopback: bool, with_apple_p2p: bool) -> Vec<Interface> {
+    #[cfg(feature = "verif-hooks")]
+    use crate::verif::if_addrs_shim as if_addrs;
     if_addrs::get_if_addrs()
         .unwrap_or_default()
         .into_iter()
@@ -4372,6 +4393,10 @@ fn send_dns_outgoing_impl(
         out.additionals().len()
     );
 
+    #[cfg(feature = "verif-hooks")]
+    let real_sock = sock;
+    #[cfg(feature = "verif-hooks")]
+    let sock = crate::verif::McastIfShim(real_sock);
     match if_addr.ip() {
         IpAddr::V4(ipv4) => {
             if let Err(e) = sock.set_multicast_if_v4(&ipv4) {
@@ -4419,6 +4444,8 @@ fn send_dns_outgoing_impl(
         }
     }
 
+    #[cfg(feature = "verif-hooks")]
+    let sock = real_sock;
     let packet_list = out.to_data_on_wire();
     for packet in packet_list.iter() {
         match unicast_dest {
@@ -4437,6 +4464,10 @@ fn unicast_on_intf(packet: &[u8], if_name: &str, dest: SocketAddr, socket: &PktI
         return;
     }
 
+    #[cfg(feature = "verif-hooks")]
+    if crate::verif::capture(packet, if_name, None, None, dest, true) {
+        return;
+    }
     let sock_addr = dest.into();
     match socket.send_to(packet, &sock_addr) {
         Ok(sz) => trace!(
@@ -4477,6 +4508,17 @@ fn multicast_on_intf(
         }
     };
 
+    #[cfg(feature = "verif-hooks")]
+    if crate::verif::capture(
+        packet,
+        if_name,
+        Some(if_index),
+        Some(if_addr.ip()),
+        addr,
+        false,
+    ) {
+        return;
+    }
     // Sends out `packet` to `addr` on the socket.
     let sock_addr = addr.into();
     match socket.send_to(packet, &sock_addr) {
@@ -4543,6 +4585,9 @@ fn prepare_announce(
     let mut probing_count = 0;
     let mut out = DnsOutgoing::new(FLAGS_QR_RESPONSE | FLAGS_AA);
     let create_time = current_time_millis() + fastrand::u64(0..250);
+    #[cfg(feature = "verif-hooks")]
+    let create_time =
+        current_time_millis() + crate::verif::jitter(create_time - current_time_millis());
 
     out.add_answer_at_time(
         DnsPointer::new(
@@ -4844,6 +4889,10 @@ fn resolve_addr_to_index(if_kind: IfKind, interfaces: &[Interface]) -> IfKind {
     }
     if_kind
 }
+
+#[cfg(feature = "verif-hooks")]
+#[path = "verif/daemon_view.rs"]
+pub(crate) mod verif_view;
 
 #[cfg(test)]
 mod tests {
